@@ -679,3 +679,10 @@ K('C09', 'public-total-solutions-rezipped-with-all-measurements', [(PI, "    var
                                                                     "    solved = [lsmr(Q.T, np.ones(Q.shape[1]), atol=0, btol=0)[0] for Q, y, noise, proj in measurements]\n    usable = [v for v, (Q, y, noise, proj) in zip(solved, measurements) if np.allclose(Q.T.dot(v), 1.0)]\n    variances = np.array([noise**2 * np.dot(v, v) for v, (Q, y, noise, proj) in zip(usable, measurements)])\n    estimates = np.array([np.dot(v, y) for v, (Q, y, noise, proj) in zip(usable, measurements)])\n")], 'same-system')
 T('C09', 'public-total-as-a-comprehension-pipeline', [(PI, "    variances = np.array([])\n    estimates = np.array([])\n    for Q, y, noise, proj in measurements:\n        o = np.ones(Q.shape[1])\n        v = lsmr(Q.T, o, atol=0, btol=0)[0]\n        if np.allclose(Q.T.dot(v), o):\n            variances = np.append(variances, noise**2 * np.dot(v, v))\n            estimates = np.append(estimates, np.dot(v, y))\n",
                                                        "    solved = [(lsmr(Q.T, np.ones(Q.shape[1]), atol=0, btol=0)[0], Q, y, noise) for Q, y, noise, proj in measurements]\n    usable = [(v, y, noise) for v, Q, y, noise in solved if np.allclose(Q.T.dot(v), 1.0)]\n    variances = np.array([noise**2 * np.dot(v, v) for v, y, noise in usable])\n    estimates = np.array([np.dot(v, y) for v, y, noise in usable])\n")])
+
+# ------------------------------------------------------------------ every property: third family of whole-tree rewrites
+for _how, _id in (('KWCALL', 'in-module-calls-by-keyword-tree'), ('DOCSTRIP', 'docstrings-removed-tree'), ('CONDTMP', 'conditions-through-temporaries-tree'),
+                  ('RECVTMP', 'receivers-through-temporaries-tree'), ('LOOPUNPACK', 'loop-targets-unpacked-in-the-body-tree'),
+                  ('TUPJOIN', 'assignments-joined-into-tuples-tree'), ('ANDSPLIT', 'conjunctions-as-nested-ifs-tree')):
+    for _p in ['C11', 'C12', 'C01', 'C02', 'C04', 'C05', 'C06', 'C07', 'C08', 'C09', 'C10', 'C13', 'C14', 'C15', 'C16', 'C18', 'C19', 'C20']:
+        MUTANTS.append({'prop': _p, 'id': _id, 'kind': 'T', 'edits': _how})
